@@ -139,7 +139,7 @@ PROPS = {
     "C01": {"ready": True, "replay": c01_suite.replay, "suites": [lambda v, tier, seed: c01_suite.run(v, tier, seed)],
             "partial": "cross-process determinism of DefaultHasher/Pcg64 and the order of equal-depth start states are observed, not proved; "
                        "the theorems cover the hash-order independence of dump_events/snapshot and of crash_node"},
-    "C04": {"ready": True, "partial": PARTIAL_D1 + "; the step-by-step inclusion of a simulated execution in the reduced reference semantics (R4, sim_step_refines_partial) is proved for fault rates zero and without crash/recover during the run; with positive rates or crashes it is checked on the implementation (simulated walks) only",
+    "C04": {"ready": True, "partial": PARTIAL_D1 + "; the end-to-end theorem sim_run_covered_partial (simulated run after the snapshot is covered by an Ok exploration) assumes fault rates zero, no crash/recover after the snapshot, exact time arithmetic (finding D16 is where f64 breaks it) and goal/prune only at states without pending events; with positive rates or crashes the inclusion is checked on the implementation (simulated walks) only",
             "replay": sim_replay, "suites": [snapshot_check(walk=10, routes=False, fp=True)]},
     "C05": {"ready": True, "replay": sim_replay,
             "suites": [sim("sim_network", "C05", dict(p_fault=0.6, p_link=0.6, p_crash=0.1, nodes=(2, 3), procs=(2, 4)),
